@@ -101,6 +101,10 @@ func judge(c *Case, wr *worldRun, rc *refCache, stateChecks bool, attrib bool) [
 		for ci := range t.Calls {
 			call := &t.Calls[ci]
 			res := &wr.results[ti][ci]
+			if res.Kind == "corrupted" {
+				vs = append(vs, verdict{sig: "process-state-corrupts-tensor-construction", what: fmt.Sprintf("task %d call %d: %s (the tensor library's process-wide pools no longer hand out usable objects)", ti, ci, res.Err), task: ti, call: ci})
+				continue
+			}
 			if res.Skipped || res.Kind == "" || hasBad(res.InBefore) {
 				continue
 			}
